@@ -43,7 +43,7 @@ HDR = ("From DD Require Import Base.PyStr Base.Value Diff.Tree Diff.DiffModel Di
        "Path.PathModel Filter.FilterModel Filter.FilterShow.")
 
 THRS = (0, 0.33, 0.9)
-EXTRA_STR = ["a\nb", "__p", "it's", 'q"t', "root[0]", "a']['b"]
+EXTRA_STR = ["a\nb", "__p", "it's", 'q"t', "root[0]", "a']['b", "xroot[1]", "root"]
 
 
 # --------------------------------------------------------------------------
@@ -365,7 +365,23 @@ def m_set_member(case):
     return set_member_hit(t1, t2, opt)
 
 
+def m_include_substring(case):
+    """K13b: a position that is unrelated (as a key sequence) to every include
+    path, but whose rendered path contains an include string or is contained in one"""
+    t1, t2, opt, P, spec = analyse(case)
+    if not opt.get("inc"):
+        return False
+    incs = set(s for a in opt["inc"] for s in rooted(a))
+    for p in P:
+        if p and not spec.included(p):
+            s = render(p)
+            if any(s in q or q in s for q in incs):
+                return True
+    return False
+
+
 MATCHERS = {"K13a-threshold-shortcut": m_threshold,
+            "K13b-include-substring": m_include_substring,
             "K10-include-key-format": m_include_key_format,
             "K13c-set-member-index": m_set_member}
 
@@ -664,6 +680,12 @@ WITNESSES = [
     ("C13_exclude_default_index_refuted", [1, 2], [2, 3],
      {"zip": False, "thr": 0, "ex": ["root[0]"], "kind": "witness"},
      {'iterable_item_added': {'root[1]': 3}}),
+    ("C13_include_substring_refuted", [{'xroot[1]': 1}, 5], [{'xroot[1]': 2}, 6],
+     {"zip": True, "thr": 0, "inc": ["root[0]['xroot[1]']"], "kind": "witness"},
+     {'values_changed': {"root[0]['xroot[1]']": {'new_value': 2, 'old_value': 1}, 'root[1]': {'new_value': 6, 'old_value': 5}}}),
+    ("include_substring_sibling_refuted", {"xroot['a']": 1, 'a': 1, 'b': 1}, {"xroot['a']": 2, 'a': 2, 'b': 2},
+     {"zip": True, "thr": 0, "inc": ["root[\"xroot['a']\"]"], "kind": "witness"},
+     {'values_changed': {"root['a']": {'new_value': 2, 'old_value': 1}}}),
 ]
 
 
